@@ -14,4 +14,16 @@ PROPS = {
             'explanation': 'state-read ops: operand popping, view/contract routing, memory layout (layout_k), frame'},
     'C12': {'level': 'proof', 'verus_units': ['vm_core'],
             'explanation': 'access ops against spec functions; crypto marshalling assumed'},
+    'C06': {'level': 'proof', 'verus_units': ['types_core', 'check_core'],
+            'explanation': 'decoders / validators / graph helpers carry no precondition on the untrusted argument; Verus discharges every index, slice, unwrap/expect, arithmetic obligation'},
+    'C18': {'level': 'proof', 'verus_units': ['types_core'],
+            'explanation': 'decode_mutation(s) invert the spec encoders on every input; node_edges equals the documented sub-range; fixed-width conversions by complete Kani proofs'},
+    'C16': {'level': 'proof', 'verus_units': ['check_core'],
+            'explanation': 'validators accept exactly the documented limits (bi-implications)'},
+    'C04': {'level': 'proof', 'verus_units': ['check_core'],
+            'explanation': 'set validation verdict is a symmetric predicate of the solutions; one mutation per (contract, key) across the set'},
+    'C01': {'level': 'other', 'verus_units': ['check_core'],
+            'explanation': 'graph layer only: malformed graphs rejected (create_parent_map Ok <==> graph_ok), helpers panic-free on every graph; orchestration not covered'},
+    'C03': {'level': 'other', 'verus_units': ['check_core', 'vm_core'],
+            'explanation': 'state-read routing (vm_core), overlay fallback for contracts without mutations, key successor (bounded), deferral helpers panic-free; two-pass sequencing not covered'},
 }
